@@ -54,6 +54,19 @@ func buildC15Universe(u *vUniverse) *vC15Layout {
 	mk("nobody", 7, nil, []int{u.cipher("", ab)})
 	mk("dup-dids", 9, []string{A, A, B}, []int{u.cipher(B, []string{A, A, B}), u.cipher(A, []string{A, A, B})})
 	mk("second-cipher-ours", 10, ab, []int{u.cipher("", ab), u.cipher(B, ab), u.cipher(A, ab)})
+	// a private transaction for [A, B] whose payload hash is the (public) payload hash of the FOREIGN private transaction
+	// "honest-BC" (list [B, C]): crafted by A, who is not on that list
+	mkp := func(kind string, at int, dids []string, ciphers []int, payload []byte) {
+		p := &vPal{dids: dids, ciphers: ciphers}
+		idx := u.add(vTxSpec{prevs: []int{ly.trunk + at}, clock: -1, pal: p, payload: payload, tag: "priv"})
+		ly.priv = append(ly.priv, idx)
+		ly.kind[idx] = kind
+	}
+	for idx, k := range ly.kind {
+		if k == "honest-BC" {
+			mkp("hash-reuse-of-BC", 11, ab, []int{u.cipher(A, ab), u.cipher(B, ab)}, u.txs[idx].payload)
+		}
+	}
 	u.addPayload("mismatch", []byte("this payload matches no transaction"))
 	ly.mism = "mismatch"
 	return ly
@@ -90,8 +103,8 @@ func (ly *vC15Layout) scenarios(u *vUniverse) []vScenario {
 			{Did: "did:nuts:A", Resolvable: true, Kaks: []vKak{{kidA, true}}, Dag: [][2]int{{ly.trunk, ly.trunk + 2}}, Priv: []int{}, NoPayload: []int{}}}
 		// how the holder sees them: 1 = authenticated listed B, 2 = authenticated unlisted C, 3 = UNauthenticated claiming B, 4 = authenticated with empty DID,
 		// 5 = authenticated listed A that lacks most of the DAG
-		sc.Conns = []vConnCfg{{At: 0, Peer: 1, Auth: true, Did: "did:nuts:B"}, {At: 0, Peer: 2, Auth: true, Did: "did:nuts:C"}, {At: 0, Peer: 3, Auth: false, Did: "did:nuts:B"},
-			{At: 0, Peer: 4, Auth: true, Did: ""}, {At: 0, Peer: 5, Auth: true, Did: "did:nuts:A"}}
+		sc.Conns = []vConnCfg{{At: 0, Peer: 1, Auth: true, Did: "did:nuts:B"}, {At: 0, Peer: 2, Auth: true, Did: "did:nuts:C", PeerID: "node1"}, {At: 0, Peer: 3, Auth: false, Did: "did:nuts:B"},
+			{At: 0, Peer: 4, Auth: true, Did: "", PeerID: "node5"}, {At: 0, Peer: 5, Auth: true, Did: "did:nuts:A"}}
 		for p := 1; p <= 5; p++ {
 			d := holders[h].Did
 			sc.Conns = append(sc.Conns, vConnCfg{At: p, Peer: 0, Auth: d != "", Did: d})
@@ -181,7 +194,7 @@ func (s *vSim) runC15Scenario(sc vScenario, ly *vC15Layout, dir string, checks *
 					c.Before, c.After = before[idx], after[idx]
 				}
 				for k := range before {
-					if k != idx && before[k] != after[k] {
+					if k != idx && before[k] != after[k] && (idx < 0 || s.u.txs[k].ph != s.u.txs[idx].ph) {
 						c.Other = true
 					}
 				}
